@@ -106,6 +106,7 @@ func runC09(cx *Ctx, r *Report) {
 	feeEvents := map[string][]ev3{}
 	burnEvents := map[string][]ev3{}
 	nNs := 0
+	nBankDenoms := 0
 	over := cx.forEachEvent(entries, watchIntCmp, func(e *Entry, w *Walker, ev *Event) {
 		pos := ev.Pos(cx)
 		ekey := e.Module + "." + e.Name
@@ -113,6 +114,24 @@ func runC09(cx *Ctx, r *Report) {
 		signer := ""
 		if len(signers) == 1 {
 			signer = signers[0]
+		}
+		// bank denominations are min units: a coin or a supply / balance query named by a
+		// token's SYMBOL addresses another denomination (normally an empty one)
+		if strings.HasPrefix(ev.Kind, "bank.") || strings.HasPrefix(ev.Kind, "ext.BankKeeper.") {
+			nBankDenoms++
+			isSymbol := func(t *Term) bool { return t != nil && t.Op == "field" && t.Name == "Symbol" }
+			var bad *Term
+			for _, a := range ev.Args {
+				if isSymbol(a) {
+					bad = a // a denom handed over as a plain string (GetSupply, GetBalance)
+				}
+				if c := findSub(a, func(t *Term) bool { return t.Op == "call" && t.Name == "coin" && len(t.Args) == 2 && isSymbol(t.Args[0]) }); c != nil {
+					bad = c.Args[0]
+				}
+			}
+			if bad != nil {
+				r.violate("bank-denom-is-min-unit", ekey+"|"+ev.Kind, pos, ev.Kind+" is given the denomination "+bad.LooseString()+" - a token's symbol - where the bank module knows the token by its min unit: the circulating amount read (or the coins moved) belong to a different denomination, so the cap check passes against an empty supply")
+			}
 		}
 		// lossy comparison
 		if strings.HasPrefix(ev.Kind, "cmp:") {
@@ -338,6 +357,11 @@ func runC09(cx *Ctx, r *Report) {
 	cx.keyEncodingUniformRule(r, []string{"token"}, "key-encoding-uniform")
 	{
 		r.ok("denom-namespace", "token/v1.MintToken,BurnToken", "", fmt.Sprintf("%d reads of the symbol index on the mint/burn chains, none keyed by the coin's denom itself", nNs))
+	}
+	if nBankDenoms < 10 {
+		r.toolErr("only %d bank effects / queries seen on the token message chains (≥10 confirmed)", nBankDenoms)
+	} else {
+		r.ok("bank-denom-is-min-unit", "scan", "", fmt.Sprintf("%d bank effects and queries on the token message chains: no denomination is a token's Symbol field", nBankDenoms))
 	}
 	r.requireCount("identity-unique", 6)
 	r.requireCount("owner-guard", 6)
